@@ -94,10 +94,14 @@ class PersistenceLandscaper(BaseEstimator, TransformerMixin):
         """
         # TODO: remove infinities
         _dgm = X[self.hom_deg]
-        if self.start is None:
-            self.start = min(_dgm, key=itemgetter(0))[0]
-        if self.stop is None:
-            self.stop = max(_dgm, key=itemgetter(1))[1]
+        # Grid limits learned by an earlier fit are learned again from the new
+        # data; limits fixed by the user are kept.
+        learned = getattr(self, "_learned_limits", {})
+        if self.start is None or self.start == learned.get("start"):
+            self.start = learned["start"] = min(_dgm, key=itemgetter(0))[0]
+        if self.stop is None or self.stop == learned.get("stop"):
+            self.stop = learned["stop"] = max(_dgm, key=itemgetter(1))[1]
+        self._learned_limits = learned
         return self
 
     def transform(self, X: np.ndarray, y=None):
